@@ -34,8 +34,9 @@ for _o in ["plain", "ratio-expand"]:
 _mk_expand(3, "ratio-mixed-expand", ("thorough",), 3000)
 # three padded expanding columns: with budgets up to 240 z3 answers `unknown` after its 900 s query timeout (non-linear integer
 # arithmetic from ratio_distribute over three symbolic widths); the smaller stated bound is decided (cf. C01)
-for _o in ["pad", "pad-collapse", "pad-noedge-expand"]:
+for _o in ["pad-collapse", "pad-noedge-expand"]:
     _mk_expand(3, _o, ("thorough",), 2400, wmax=24, cell_hi=16)
+_mk_expand(3, "pad", ("thorough",), 2400, wmax=16, cell_hi=10)      # budget 24 did not finish in 35 min
 
 
 def _mk_capped(n, tiers, timeout):
